@@ -318,9 +318,11 @@ def a6(repo, res, canon, pc):
     gen = [n for n in walk_no_nested(f.node) if isinstance(n, ast.Call) and call_name(n) == '_generate_ingest_tasks']
     gen_ok = bool(gen) and canon.c(gen[0].args[0], fr) == dparam
     g = repo.func('Cluster._generate_ingest_tasks')
-    rng = [n for n in walk_no_nested(g.node) if isinstance(n, ast.For) and isinstance(n.iter, ast.Call)
-           and call_name(n.iter) == 'range' and len(n.iter.args) == 1 and
-           canon.c(n.iter.args[0], Frame(g)) == g.params[1]]
+    gdem = g.params[0] if any('staticmethod' in d for d in g.decorators) else g.params[1]
+    iters = [n.iter for n in walk_no_nested(g.node) if isinstance(n, ast.For)] + [
+        c.iter for n in walk_no_nested(g.node) if isinstance(n, (ast.ListComp, ast.GeneratorExp)) for c in n.generators]
+    rng = [it for it in iters if isinstance(it, ast.Call) and call_name(it) == 'range' and len(it.args) == 1 and
+           canon.c(it.args[0], Frame(g)) == gdem]
     okk = src_ok and gen_ok and bool(rng)
     (res.ok if okk else res.bad)('C08.A6', f, None, 'exactly `demand` machines (available[:demand]) paired with `demand` ingest tasks',
                                  'ok' if okk else 'ingest no longer takes exactly `demand` machines from the available pool '
